@@ -6,7 +6,7 @@ import ast
 from typing import Any
 
 from ..classes import ClassInfo
-from ..linform import Chain, External, Incomplete as _Inc, Interp, InterpRaise, NonLinear, Opaque, Rec, SymObj, value_matrix  # noqa: F401
+from ..linform import Chain, External, Incomplete as _Inc, Interp, InterpRaise, LossyCoefficient, NonLinear, Opaque, Rec, SymObj, value_matrix  # noqa: F401
 from ..loader import AnalysisError, Incomplete, World
 from ..mutate import edit_def, replace_expr
 from ..poly import Matrix, Poly, poly_cos, poly_sin
@@ -94,7 +94,12 @@ class Polarimetry:
 
     def matrix(self, op: Any, kind: ClassInfo, what: str) -> Matrix:
         x = self.interp.input_record(kind)
+        before = len(self.interp.coefficient_casts)
         y = self.apply(op, x)
+        casts = self.interp.coefficient_casts[before:]
+        if casts:
+            raise LossyCoefficient(f'a coefficient computed from the operator parameters is converted to the dtype of the Stokes data before it is applied ({casts[0]}): '
+                                   'for integer Stokes data cos/sin of the angles are truncated to 0 or +-1, so the applied matrix is not the exact one')
         return value_matrix(self.interp, y, x, what)
 
     def out_kind(self, op: Any, kind: ClassInfo) -> Any:
@@ -106,6 +111,8 @@ def _derive(ck, rule, pol, op, kind, what):
     """Matrix of op on kind, or None after recording the failure."""
     try:
         return pol.matrix(op, kind, what)
+    except LossyCoefficient as exc:
+        ck.bad(rule, what, str(exc))
     except NonLinear as exc:
         ck.bad(rule, what, f'not a linear map of the Stokes components: {exc}')
     except InterpRaise as exc:
@@ -187,6 +194,17 @@ def run(ctx, ck) -> None:
         o.rule = f'{ck.pid}.M8'
         ck.obs.append(o)
     ck.floor('M8', sum(1 for o in ck.obs if o.rule.endswith('M8')), 28, 'rule-case identities')
+    # M9: a chain written with @ is the product of its factors in the written order, however it is parenthesised: the
+    # construction-time behaviour of the composition (shared with C02.S1/S2/S5, restricted to the @ dunders)
+    from . import c02
+
+    sub = type(ck)(ck.pid)
+    c02.run(ctx, sub)
+    for o in sub.obs:
+        if o.rule.endswith(('S1', 'S2', 'S5')) and 'matmul__' in o.construct:
+            o.rule = f'{ck.pid}.M9'
+            ck.obs.append(o)
+    ck.floor('M9', sum(1 for o in ck.obs if o.rule.endswith('M9')), 10, 'composition-construction obligations')
 
 
 def _call_create(pol: Polarimetry, cls: ClassInfo, angles: Any, stokes: str) -> Any:
